@@ -89,7 +89,8 @@ def check(world, tier):
         for (node, wr, wp, v) in eng.writes_log:
             if wr != root or wp != () or node not in outer:
                 continue
-            is_r = isinstance(v, tuple) and v and v[0] == "i" and single_sym(v[1]) in rf
+            # `last := received`, or `last := last.wrapping_add(1)` - the value the received number was just found equal to
+            is_r = isinstance(v, tuple) and v and v[0] == "i" and (single_sym(v[1]) in rf or single_sym(v[1]) in set(x["wrap"] for x in acc_true))
             ok = is_r and g.dominated_by_edges(Rv.entry, node, acc_edges)
             a.ob(ok, "last-accepted-written-elsewhere", "the last-accepted block number is changed other than by `last := received` behind the acceptance test",
                  sample={"write": node_str(prog, node), "value": "received block number" if is_r else repr(v)[:60]})
@@ -127,7 +128,7 @@ def check(world, tier):
             const0 = (v[1] == (0, ()))
             if s_ in E_syms or const0:
                 c.ob(True, "ack-value", "", nontrivial=True, sample={"ACK value": "last accepted"})
-            elif s_ in r_syms:
+            elif s_ in r_syms or s_ in set(x["wrap"] for x in acc_true):
                 ok = g.dominated_by_edges(Rv.entry, e.node, acc_edges)
                 # the same node is shared by all ACK sends (repeat helper): check the call site in the transfer frame instead
                 sites = call_sites_in_frame(Rv, [e.node], fid)
